@@ -35,6 +35,38 @@ func fromG(g gf2p16.Matrix, r, c int) lin.M {
 	return m
 }
 
+// c11Kept holds operands of earlier calls (with a snapshot of their contents): a matrix operation must not modify
+// its operands - not during the call and not later (an operand that a later call scribbles on, because the earlier
+// call kept a reference to its storage, was modified all the same).
+type c11KeptOperand struct {
+	g    gf2p16.Matrix
+	snap lin.M
+	what string
+}
+
+var c11Kept []c11KeptOperand
+
+func c11Keep(g gf2p16.Matrix, snap lin.M, what string) {
+	if len(c11Kept) >= 12 {
+		c11Kept = c11Kept[1:]
+	}
+	cp := make(lin.M, len(snap)) // the enumerators reuse their matrices: keep a private snapshot
+	for i := range snap {
+		cp[i] = append([]uint16{}, snap[i]...)
+	}
+	c11Kept = append(c11Kept, c11KeptOperand{g, cp, what})
+}
+
+func c11CheckKept(r *core.Rec, now string) {
+	for _, k := range c11Kept {
+		if !lin.Equal(fromG(k.g, len(k.snap), len(k.snap[0])), k.snap) {
+			r.Violatef("operand-of-an-earlier-call-modified-later", "an operand of %s changed its contents during / after %s", k.what, now)
+			c11Kept = nil
+			return
+		}
+	}
+}
+
 // checkSquare runs Inverse and RowReduceForInverse on m and judges them.
 // small: use determinant/adjugate; else product checks + reference rank.
 func c11CheckSquare(r *core.Rec, m lin.M, what string) {
@@ -111,7 +143,11 @@ func c11CheckSquare(r *core.Rec, m lin.M, what string) {
 		if !lin.Equal(fromG(g, n, n), m) || !lin.Equal(fromG(gn, n, cols), nm) {
 			r.Violatef("operand-modified", "%s: RowReduceForInverse modified an operand", what)
 		}
+		c11Keep(gn, nm, fmt.Sprintf("RowReduceForInverse (err=%v) on %s", rerr, what))
+		c11CheckKept(r, what)
 	}
+	c11Keep(g, m, "Inverse / RowReduceForInverse on "+what)
+	c11CheckKept(r, what)
 }
 
 func c11Show(m lin.M) string {
@@ -397,7 +433,7 @@ func init() {
 		ID:    "C11",
 		Level: "model_checking",
 		Rule: "bounded-exhaustive matrices: EVERY n x n matrix over an alphabet (n=1,2 over {0,1,2,3,0x100b,0xffff}; n=3 over {0,1,2,0xffff}; n=4 over {0,1}, thorough over {0,1,2} = 3^16); every permutation matrix and permutation x diagonal for n<=7; for n in 5..40,100(,300): Vandermonde, Cauchy, triangular, rank n-1 with the dependent row at every position, a needed row swap at every pivot position (adjacent and with the last row), a zero column at every position; RowReduceForInverse with N=I and a non-square N; Times on every pair of shapes <=3x3x3 over a 4-symbol alphabet. " +
-			"Oracle: reference determinant (cofactor) and adjugate for n<=4, reference elimination rank + products for larger n; operands compared element-wise before/after. non-trivial = chunk containing both singular and non-singular matrices / structured family",
+			"Oracle: reference determinant (cofactor) and adjugate for n<=4, reference elimination rank + products for larger n; operands compared element-wise before/after each call, and the operands of the last 12 calls (successful or failed) again after every later call. non-trivial = chunk containing both singular and non-singular matrices / structured family",
 		Assumptions: []string{"ref/lin uses a different elimination order (last candidate pivot) and cofactor expansion; it shares only ref/gf16 with nothing of gopar"},
 		NewCase:     func() interface{} { return &c11Case{} },
 		Gen:         c11Gen,
